@@ -8,13 +8,20 @@
     - [KSub]: T2(b) - the real SubsetNodesFn of the topology plugin vs
       [subset_cands]: every real node set must lie inside a model candidate;
       monitor: every real node set lies in one domain of the required level
-      (by label-vector prefixes, not by ids) together with an active pod;
+      (by label-vector prefixes, not by ids) together with an ACTIVE pod of the
+      group; the case carries every pod of the job that sits on a node WITH its
+      status: which of them pin the domain is decided on the model side
+      ([pinning pin_rule]), and the monitor's "active" is [active_pods]
+      (Allocated / Pipelined / Binding / Bound / Running) - a Releasing,
+      Succeeded or Failed pod neither pins a domain nor counts as a violation;
     - [KCycle]: T3 - the Bind / TaskPipelined / Evict calls of whole real
       cycles; monitor: every placement call satisfies the hard constraints
       w.r.t. the pods on the nodes at that moment (placements earlier in the
       cycle included) and the topology clauses of every (sub-)group the pod
-      belongs to. *)
-From KaiV Require Export Run.Prelude Model.Placement Model.Topology.
+      belongs to.  Pods on the nodes at the start come with their status:
+      the active-used ones are on the nodes (affinity), the active-allocated ones
+      are the active pods of their groups; an evicted pod stops being active. *)
+From KaiV Require Export Run.Prelude Model.Status Model.Placement Model.Topology.
 Open Scope string_scope.
 Open Scope list_scope.
 
@@ -35,11 +42,12 @@ Inductive case :=
         (verdicts : list (string * bool))  (* observed: node in the session and FittingNode = true *)
 | KSub (topos : list topo) (nodes : list pnode)
        (tc : option tcons) (ms : list positive) (ntasks : nat)
-       (allowed : list string) (act : active_t)
+       (allowed : list string)
+       (ps : spods)                        (* every pod of the job on a node: id, node, status *)
        (sets : list (list string))         (* observed: node sets returned (none on error) *)
 | KCycle (cl : cluster) (topos : list topo)
          (pods : list ppod)
-         (init : list (positive * string * bool))   (* pods on session nodes at the start: id, node, active-allocated *)
+         (init : spods)                     (* pods with a node of the session at the start: id, node, status *)
          (groups : list ginfo)
          (calls : list ccall).
 
@@ -63,8 +71,8 @@ Definition pred_monitor (cl : cluster) (placed : placed_t) (p : ppod) (verdicts 
 (** * T2(b) *)
 
 Definition sub_agrees (topos : list topo) (nodes : list pnode) (tc : option tcons) (ms : list positive)
-           (ntasks : nat) (allowed : list string) (act : active_t) (sets : list (list string)) : bool :=
-  match subset_cands topos nodes tc ms ntasks allowed act with
+           (ntasks : nat) (allowed : list string) (ps : spods) (sets : list (list string)) : bool :=
+  match subset_cands topos nodes tc ms ntasks allowed (pinning pin_rule ps) with
   | SNPass => match sets with [s] => set_eqb s allowed | _ => false end
   | SNSets cands => forallb (fun s => existsb (fun c => subset_b s c) cands) sets
   end.
@@ -85,7 +93,8 @@ Definition in_one_domain_b (T : topo) (nodes : list pnode) (l : nat) (names : li
 Definition nil_b {A} (l : list A) : bool := match l with [] => true | _ => false end.
 
 Definition sub_monitor (topos : list topo) (nodes : list pnode) (tc : option tcons) (ms : list positive)
-           (ntasks : nat) (act : active_t) (sets : list (list string)) : bool :=
+           (ntasks : nat) (ps : spods) (sets : list (list string)) : bool :=
+  let act := active_pods ps in
   match tc, ntasks with
   | None, _ => true
   | Some c, O => if String.eqb (tc_topo c) "" then true
@@ -161,13 +170,16 @@ Definition step (cl : cluster) (topos : list topo) (pods : list ppod) (groups : 
   | CEvict id => mkMS (m_placed st) (filter (fun e => negb (Pos.eqb (fst e) id)) (m_active st)) (m_ok st)
   end.
 
-Definition init_state (pods : list ppod) (init : list (positive * string * bool)) : mstate :=
-  mkMS (flat_map (fun e : positive * string * bool => match find_pod pods (fst (fst e)) with Some p => [(p, snd (fst e))] | None => [] end) init)
-       (flat_map (fun e : positive * string * bool => if snd e then [fst e] else []) init)
+Definition init_state (pods : list ppod) (init : spods) : mstate :=
+  mkMS (flat_map (fun e : positive * string * status =>
+                    if active_used (snd e)
+                    then match find_pod pods (fst (fst e)) with Some p => [(p, snd (fst e))] | None => [] end
+                    else []) init)
+       (active_pods init)
        true.
 
 Definition cycle_monitor (cl : cluster) (topos : list topo) (pods : list ppod)
-           (init : list (positive * string * bool)) (groups : list ginfo) (calls : list ccall) : bool :=
+           (init : spods) (groups : list ginfo) (calls : list ccall) : bool :=
   m_ok (fold_left (step cl topos pods groups) calls (init_state pods init)).
 
 (** * Entry points *)
@@ -175,7 +187,7 @@ Definition cycle_monitor (cl : cluster) (topos : list topo) (pods : list ppod)
 Definition model_agrees (k : case) : bool :=
   match k with
   | KPred cl pre placed p snap verdicts => pred_agrees cl pre placed p snap verdicts
-  | KSub topos nodes tc ms ntasks allowed act sets => sub_agrees topos nodes tc ms ntasks allowed act sets
+  | KSub topos nodes tc ms ntasks allowed ps sets => sub_agrees topos nodes tc ms ntasks allowed ps sets
   | KCycle _ _ _ _ _ _ => true
   end.
 
@@ -183,7 +195,7 @@ Definition model_agrees (k : case) : bool :=
 Definition monitor_ok (k : case) : bool :=
   match k with
   | KPred cl _ placed p _ verdicts => pred_monitor cl placed p verdicts
-  | KSub topos nodes tc ms ntasks _ act sets => sub_monitor topos nodes tc ms ntasks act sets
+  | KSub topos nodes tc ms ntasks _ ps sets => sub_monitor topos nodes tc ms ntasks ps sets
   | KCycle cl topos pods init groups calls => cycle_monitor cl topos pods init groups calls
   end.
 
